@@ -45,14 +45,16 @@ CHECKS = {
 
 NOT_YET = "check not built yet in this session (work in progress; design in DESIGN.md §5)"
 
+CLAIMED = set(l.strip() for l in open(os.path.join(HERE, "tools", "claimed.txt")) if l.strip() and not l.startswith("#"))
+
 def load_pkg_entries():
     """checks/cNN/manifest.json: {"category","technique","text","note","ref"} written next to a check package."""
     import glob
     for f in sorted(glob.glob(os.path.join(HERE, "harness", "checks", "c*", "manifest.json"))):
         pid = os.path.basename(os.path.dirname(f)).upper()
         reg = os.path.join(HERE, "harness", "cmd", "vcheck", "reg_%s.go" % pid.lower())
-        if not os.path.exists(reg):
-            continue  # not wired into vcheck yet
+        if not os.path.exists(reg) or pid not in CLAIMED:
+            continue  # not wired into vcheck yet / not accepted by the coordinator yet
         d = json.load(open(f))
         CHECKS[pid] = (d["category"], d["technique"], d["text"], d["note"], d.get("ref", "DESIGN.md §5 " + pid))
 
@@ -82,7 +84,7 @@ def main():
         "notes": "Family: runtime monitoring and sanitizers. ./check <id> quick|thorough rebuilds harness+repo from the working tree each time. Known findings: known_findings.json (read-only at run time).",
     }
     for pid in props:
-        if pid in CHECKS:
+        if pid in CHECKS and pid in CLAIMED:
             cat, tech, text, note, ref = CHECKS[pid]
             m["checks"].append({
                 "property_id": pid,
